@@ -38,11 +38,14 @@ type augSpec struct {
 	// text is read back under CustomTraceNumbers: a file with foreign trace numbers that no Create has touched
 	// (its batches are then used as they are: plan ignored)
 	TextTraces bool `json:"textTraces,omitempty"`
+	// the generator may balance PPD/CCD/WEB/CTX batches with an Offset (Batch.WithOffset); plan 6 cuts such a
+	// batch in two balanced parts with disjoint trace numbers, each carrying the Offset configuration
+	Offset bool `json:"offset,omitempty"`
 }
 
 func (a augSpec) opts() gen.Opts {
 	return gen.Opts{IAT: a.IAT, Returns: a.Returns, NOC: a.NOC, NonASCII: a.NonASCII, Addenda: a.Addenda,
-		MaxBatches: a.MaxBatches, MaxEntries: a.MaxEntries}
+		MaxBatches: a.MaxBatches, MaxEntries: a.MaxEntries, Offset: a.Offset}
 }
 
 func (a augSpec) source() (f *ach.File, err error) {
@@ -188,6 +191,21 @@ func buildAug(a augSpec) (*ach.File, error) {
 			}
 		case 4:
 			parts = []ach.Batcher{stdPart(c[0].Batches[i], 0, 2), stdPart(c[1].Batches[i], 1, 2), stdPart(c[2].Batches[i], 0, 2)}
+		case 6:
+			// two parts with the same header and disjoint trace numbers (the second part's sequence numbers are
+			// moved far away, so that the OFFSET entries Create appends to each part collide with nothing); a part of a
+			// batch configured with an Offset is balanced again by its own Create and keeps the configuration
+			for j := 0; j < 2; j++ {
+				pb := c[j].Batches[i]
+				if j == 1 && pb.Category() == ach.CategoryForward && pb.GetHeader().StandardEntryClassCode != ach.ADV {
+					for _, e := range pb.GetEntries() {
+						if n, err := strconv.Atoi(e.TraceNumberField()[8:]); err == nil && len(e.TraceNumber) == 15 {
+							e.TraceNumber = e.TraceNumber[:8] + fmt.Sprintf("%07d", (n+5000)%10000000)
+						}
+					}
+				}
+				parts = append(parts, stdPart(pb, j, 2))
+			}
 		case 5:
 			// short trace numbers only: two single-entry batches with the same header whose trace numbers have
 			// different lengths ("9" and "10"): each is valid alone, their raw order and their padded order differ
@@ -297,6 +315,18 @@ func genAug(r *rng.R) fileSpec {
 	}
 	if a.NeedsOpts == 0 && r.Chance(1, 6) {
 		a.TextTraces = true
+	}
+	if a.NeedsOpts == 0 && !a.TextTraces && r.Chance(1, 5) {
+		a.Offset = true
+		a.Returns, a.NOC = false, false
+		if a.SEC == "" || r.Chance(1, 2) {
+			a.SEC = rng.Pick(r, []string{"PPD", "CCD", "WEB", "CTX"})
+		}
+		for i := range a.Plan {
+			if r.Chance(2, 3) {
+				a.Plan[i] = 6
+			}
+		}
 	}
 	return fileSpec{Tag: "gen", Aug: &a}
 }
